@@ -75,7 +75,7 @@ def run_rtcheck(fid, tier="quick", seed=0, clauses=None, case=None, regions=None
 _PREP = []          # [(fid, vc, info, obligations(list of (Obligation, kf entries)))]  filled before forking
 
 
-def _prepare(fid, kf_entries):
+def _prepare(fid, kf_entries, prop=None):
     """Symbolic execution of one function in the main process -> obligations (z3 terms)."""
     from pyvc import source, contracts as C
     from pyvc.verify import PyVC
@@ -90,6 +90,12 @@ def _prepare(fid, kf_entries):
     except Exception:
         info = {"fid": fid, "status": "crash", "error": traceback.format_exc()[-3000:], "obligations": [], "covers": []}
     items = []
+    only = c.prop_clauses.get(prop)
+    if only is not None:
+        # this property is served by some postcondition clauses of the function only
+        info["obligations"] = [ob for ob in info.get("obligations", [])
+                               if ob.kind != "post" or ob.label in only or ob.label.split(".")[-1] in only]
+        info["clauses_selected_for_this_property"] = sorted(only)
     for ob in info.get("obligations", []):
         ents = [e for e in kf_entries if e.get("obligation") == ob.oid]
         ob2 = None
@@ -305,7 +311,7 @@ def run_check(prop, args, seed, t0):
     rlimit = int(os.environ.get("PYVC_RLIMIT", "40000000" if tier == "quick" else "120000000"))
     BASE_RLIMIT[0] = rlimit
     global _PREP
-    _PREP = [_prepare(f, [e for e in active if e.get("obligation", "").startswith(f + "#")]) for f in fids]
+    _PREP = [_prepare(f, [e for e in active if e.get("obligation", "").startswith(f + "#")], prop) for f in fids]
     sjobs = []
     for fi, (fid, vc, info, items) in enumerate(_PREP):
         for oi in range(len(items)):
@@ -569,8 +575,9 @@ def run_check(prop, args, seed, t0):
         "assumptions": sorted(assumptions) + tb_notes + cfg.get("notes", []),
         "wall_s": round(wall, 3), "violations": len(violations),
     }
-    os.makedirs(os.path.join(HERE, "evidence"), exist_ok=True)
-    with open(os.path.join(HERE, "evidence", "%s.json" % prop), "w") as f:
+    evdir = os.environ.get("PYVC_EVIDENCE_DIR") or os.path.join(HERE, "evidence")   # override: scratch-copy experiments only
+    os.makedirs(evdir, exist_ok=True)
+    with open(os.path.join(evdir, "%s.json" % prop), "w") as f:
         json.dump(evidence, f, indent=1, default=str)
     say("%s %s: %d/%d obligations discharged over %d functions (%s), %d bounded stand-ins, "
         "%d known findings, %.1fs" % (prop, tier, n_dis, n_obl, len(fids),
